@@ -16,6 +16,8 @@
 (*             experimental syntax                                         *)
 (*   used    : programs whose kept rules object was compiled from before   *)
 (*             (rulesObjectUsed[prog])                                     *)
+(*   engines : engines whose translation tables were built in the process  *)
+(*   failed  : some earlier step failed (its exception was caught)         *)
 (*                                                                         *)
 (* Modes of Compile(prog, mode):                                           *)
 (*   "parse"  parse the text again, compile the fresh rules object         *)
@@ -34,8 +36,19 @@ EXTENDS Naturals, Sequences, FiniteSets
 
 Modes == {"parse", "reuse"}
 
+(* Every program has a STAGE at which its compilation ends, a function of   *)
+(* the program: "ok", or the failure "parse" (ParsingException: syntax,     *)
+(* import), "compile" (RuleCompileException, FunctorError), "type"          *)
+(* (TypeErrorCaughtException), "exec" (compiles; running the SQL fails).    *)
+(* A failing step leaves behind whatever was set before the failure point:  *)
+(* a parse failure comes after EnactIncantations (flag) but before a rules  *)
+(* object exists; the later failures come after the rules object was kept,  *)
+(* the caches were filled and the tables of the program's dialect built.    *)
+Stages == {"ok", "parse", "compile", "type", "exec"}
+
 NoProc == [alive |-> FALSE, seed |-> 0, tooMuch |-> FALSE, warm |-> FALSE,
-           plain |-> {}, fun |-> {}, used |-> {}]
+           plain |-> {}, fun |-> {}, used |-> {}, engines |-> {},
+           failed |-> FALSE]
 
 FreshProc(s) == [NoProc EXCEPT !.alive = TRUE, !.seed = s]
 
@@ -44,26 +57,44 @@ Kept(ps, p) == p \in ps.plain \cup ps.fun
 (* The action parses the program text now. *)
 ParsesNow(ps, p, m) == m = "parse" \/ ~Kept(ps, p)
 
-(* As built: the syntax a parse happening now uses (inc: the text contains *)
-(* the incantation).                                                       *)
+(* Implementation-shaped: the syntax a parse happening now uses (inc: the   *)
+(* text contains the incantation).                                          *)
 FunNow(ps, inc) == ps.tooMuch \/ inc
 
-(* As built: the rules object this action compiles from was parsed with    *)
-(* the experimental syntax.                                                *)
+(* Implementation-shaped: the rules object this action compiles from was    *)
+(* parsed with the experimental syntax.                                     *)
 UnderFun(ps, p, m, inc) ==
   IF ParsesNow(ps, p, m) THEN FunNow(ps, inc) ELSE p \in ps.fun
+
+(* Implementation-shaped: tables of another dialect were built earlier in   *)
+(* this process.                                                            *)
+OtherEngineBefore(ps, eng) == \E e \in ps.engines : e # eng
 
 (* The rules object this action compiles from was compiled from before.    *)
 UsedBefore(ps, p, m) == m = "reuse" /\ p \in ps.used
 
-AfterCompile(ps, p, m, inc) ==
-  LET keep == m = "reuse" /\ ~Kept(ps, p)
+(* The parser flag after the step, in two implementation-shaped models:     *)
+(*   "asbuilt"     (before commit 720d71e) set by an incantation, never     *)
+(*                 reset                                                    *)
+(*   "failsticky"  decided by every parse that SUCCEEDS; a parse that fails *)
+(*                 leaves what it had set                                   *)
+FlagAfter(model, ps, p, m, inc, stage) ==
+  IF ~ParsesNow(ps, p, m) THEN ps.tooMuch
+  ELSE IF model = "failsticky"
+  THEN (IF stage = "parse" THEN ps.tooMuch \/ inc ELSE FALSE)
+  ELSE ps.tooMuch \/ inc
+
+AfterCompile(model, ps, p, m, inc, stage, eng) ==
+  LET reached == stage # "parse"      \* a rules object exists
+      keep == m = "reuse" /\ ~Kept(ps, p) /\ reached
   IN [ps EXCEPT
-        !.tooMuch = ps.tooMuch \/ (ParsesNow(ps, p, m) /\ inc),
-        !.warm = TRUE,
+        !.tooMuch = FlagAfter(model, ps, p, m, inc, stage),
+        !.warm = ps.warm \/ reached,
         !.plain = IF keep /\ ~FunNow(ps, inc) THEN ps.plain \cup {p} ELSE ps.plain,
         !.fun = IF keep /\ FunNow(ps, inc) THEN ps.fun \cup {p} ELSE ps.fun,
-        !.used = IF m = "reuse" THEN ps.used \cup {p} ELSE ps.used]
+        !.used = IF m = "reuse" /\ reached THEN ps.used \cup {p} ELSE ps.used,
+        !.engines = IF reached THEN ps.engines \cup {eng} ELSE ps.engines,
+        !.failed = ps.failed \/ stage # "ok"]
 
 HRange(s) == {s[k] : k \in 1..Len(s)}
 =============================================================================
